@@ -33,7 +33,7 @@ func genBody(r *lib.Rand, id uint64, small bool) string {
 		seen[f] = true
 		v := pickS(r, valuePool)
 		if f == "n" {
-			v = pickS(r, []string{`4`, `5`, `null`, `"x"`, `4`}) // "x" is rejected once the schema is active
+			v = pickS(r, []string{`4`, `5`, `null`, `"x"`, `4`, `"y"`}) // theSchema rejects strings, schema2 numbers
 		}
 		parts = append(parts, fmt.Sprintf(`"%s":%s`, f, v))
 		// explicit stamps now and then
@@ -48,6 +48,9 @@ func genBody(r *lib.Rand, id uint64, small bool) string {
 			case 3:
 				parts = append(parts, fmt.Sprintf(`"%s_time":null`, f))
 			}
+		} else if r.Chance(0.03) && f != "user" {
+			// a stamp that is not a string: the request must be rejected
+			parts = append(parts, fmt.Sprintf(`"%s_%s":%s`, f, pickS(r, []string{"time", "user"}), pickS(r, []string{`5`, `[1]`, `true`})))
 		}
 	}
 	return "{" + strings.Join(parts, ",") + "}"
@@ -63,10 +66,17 @@ func stdReads(ids []uint64, absent uint64) []ReadSpec {
 		{Kind: "key", ID: absent},
 		{Kind: "keyvalues", Keys: append([]uint64{absent}, ids...), Show: 2},
 		{Kind: "meta", Meta: 0}, {Kind: "meta", Meta: 1}, {Kind: "meta", Meta: 2},
+		{Kind: "fieldtimes"}, {Kind: "schemainforce"},
+		{Kind: "headmeta", Meta: 0}, {Kind: "headmeta", Meta: 1}, {Kind: "headkey", ID: absent},
+		{Kind: "keyvalues", Keys: append([]uint64{absent}, ids...), Enc: 1}, {Kind: "keyvalues", Keys: append([]uint64{absent}, ids...), Show: 3, Enc: 2},
+		{Kind: "krv", A: "1", B: "15", Enc: 1}, {Kind: "krv", A: "2", B: "100", Show: 1, Enc: 2}, {Kind: "krv", A: "0", B: "a", Fm: []string{"a"}, Enc: 2},
 	}
 	for i, id := range ids {
 		if i < 3 {
 			rs = append(rs, ReadSpec{Kind: "key", ID: id, Show: 3})
+		}
+		if i < 2 {
+			rs = append(rs, ReadSpec{Kind: "headkey", ID: id})
 		}
 	}
 	if len(ids) > 0 {
@@ -76,7 +86,7 @@ func stdReads(ids []uint64, absent uint64) []ReadSpec {
 		`{"a":1}`, `{"a":[1,2,-1]}`, `{"s":"x"}`, `{"s":["x","y"]}`, `{"s":"re/^x"}`, `{"s":["re/y$","x"]}`, `{"s":"re/("}`,
 		`{"zz":"exists/0"}`, `{"a":"exists/1"}`, `{"a":"exists/0","s":"exists/1"}`, `[{"a":1},{"b":"exists/1"}]`,
 		`{"a":1.5}`, `{"a":[1.5,2.25]}`, `{"a":1,"s":"x"}`, `{"a_user":"re/^u"}`, `{"f":true}`, `{"b":null}`,
-		`[{},{"a":7}]`, `{"c":["x",2]}`, `{"user":"x"}`, `{"a":-1}`,
+		`[{},{"a":7}]`, `{"c":["x",2]}`, `{"c":[2,"x"]}`, `{"a":[2.25,"x",1.5]}`, `{"user":"x"}`, `{"a":-1}`,
 	}
 	for i, q := range qs {
 		r := ReadSpec{Kind: "query", Query: q}
@@ -135,6 +145,21 @@ func corpus() []CaseSpec {
 		{Kind: "commit"}, {Kind: "reload"}, {Kind: "newversion"}, post(11, `{"bodyid":11,"n":"x"}`),
 		{Kind: "metadelete", Meta: 1}, {Kind: "metapost", Meta: 2, Val: `[1]`}},
 		Reads: stdReads([]uint64{10, 11}, 15)})
+	// (f) fieldtimes: last-posted stamp vs newest stamp, and fields that disappear
+	cs = append(cs, CaseSpec{Name: "corpus-fieldtimes", Ops: []OpSpec{
+		post(10, `{"bodyid":10,"a":1,"a_time":"2020-01-01T00:00:00Z"}`),
+		post(20, `{"bodyid":20,"a":1,"a_time":"2022-01-01T00:00:00Z"}`),
+		post(10, `{"bodyid":10,"b":1,"b_time":"2021-01-01T00:00:00Z"}`),
+		post(30, `{"bodyid":30,"c":1}`), del(30)},
+		Reads: stdReads([]uint64{10, 20, 30}, 15)})
+	// (h) the deleted JSON schema stays in force
+	cs = append(cs, CaseSpec{Name: "corpus-schema-delete", Ops: []OpSpec{
+		{Kind: "metapost", Meta: 0, Val: theSchema}, post(10, `{"bodyid":10,"n":4}`), post(11, `{"bodyid":11,"n":"x"}`),
+		{Kind: "metadelete", Meta: 0}, post(12, `{"bodyid":12,"n":"x"}`),
+		{Kind: "metapost", Meta: 0, Val: schema2}, post(13, `{"bodyid":13,"n":"x"}`), post(14, `{"bodyid":14,"n":4}`),
+		post(15, `{"bodyid":15,"a":1,"a_time":5}`), post(15, `{"bodyid":15,"a":1,"a_user":[1]}`),
+		{Kind: "metadelete", Meta: 0}, post(16, `{"bodyid":16,"n":7}`)},
+		Reads: stdReads([]uint64{10, 11, 12, 13}, 17)})
 	// field merge rules
 	cs = append(cs, CaseSpec{Name: "corpus-stamps", Ops: []OpSpec{
 		post(7, `{"bodyid":7,"a":1,"s":"x","b":[1,2],"a_time":"2020-01-01T00:00:00Z"}`),
@@ -200,7 +225,7 @@ func genCase(r *lib.Rand, name string, thorough bool) CaseSpec {
 			m := r.Intn(3)
 			val := pickS(r, []string{`{"x":1}`, `[1,2]`, `"v"`})
 			if m == 0 {
-				val = theSchema
+				val = pickS(r, []string{theSchema, theSchema, schema2})
 			}
 			ops = append(ops, OpSpec{Kind: "metapost", Meta: m, Val: val})
 		case x < 80:
@@ -253,9 +278,6 @@ func genCase(r *lib.Rand, name string, thorough bool) CaseSpec {
 		case 2:
 			f := pickS(r, fieldPool)
 			v := pickS(r, valuePool)
-			if v == `[1,"x"]` { // a number followed by a string in a query list panics in checkField (reported, not generated)
-				v = `["x",1]`
-			}
 			reads = append(reads, ReadSpec{Kind: "query", Query: fmt.Sprintf(`{"%s":%s}`, f, v), Show: r.Intn(4), OnlyID: r.Chance(0.3)})
 		case 3:
 			reads = append(reads, ReadSpec{Kind: "all", Fm: []string{pickS(r, fieldPool), pickS(r, fieldPool) + "_user"}, Show: r.Intn(4)})
